@@ -114,7 +114,9 @@ def gen_line(rnd, txt=None):
     return ln + '\n'
 
 
-PROSEW = ['so', 'dass', 'a', 'b', 'ab', 'Ab', 'bb', 'aa', 'long', 'word', 'ä', 'ж']
+PROSEW = ['so', 'dass', 'a', 'b', 'ab', 'Ab', 'bb', 'aa', 'long', 'word', 'ä', 'ж',
+          # letters written with a separate combining accent, a compatibility character: no Unicode NFC
+          'a\u0308b', 'e\u0301', '\u212b', 'so\u0308']
 PROSESEP = [' ', ' ', '  ', '\n', ' \n ', '\n\n', ', ', '. ']
 
 
